@@ -133,7 +133,7 @@ async function main() {
   console.log(`replaying ${doc.property}: ${doc.key}`);
   let res = null;
   // explorers that export their own replayer (operation histories)
-  if (["C13", "C14", "C16"].includes(doc.property)) {
+  if (["C10", "C13", "C14", "C16"].includes(doc.property)) {
     const mod = await import(`./${doc.property.toLowerCase()}.mjs`);
     if (typeof mod.replay === "function") res = await mod.replay(c, doc);
   }
